@@ -38,6 +38,12 @@ for d in sorted(glob.glob("/verif/seeded/*/")):
     else:
         outcome = "inconclusive (exit %s)" % c["exit"]
         by = "; ".join(re.sub(r"INCONCLUSIVE property=\S+ harness=", "", l)[:70] for l in c.get("inconclusive_lines", [])[:2])
+    r2 = m.get("recheck2", {}).get("check")
+    if r2 and "exit" in r2:
+        o2 = "DETECTED" if r2["exit"] == 1 else ("missed (exit 0)" if r2["exit"] == 0 else "inconclusive (exit %s)" % r2["exit"])
+        by2 = "; ".join(sorted({re.sub(r".*/", "", l.split("replay=")[-1]).replace(".json", "") for l in r2.get("violation_lines", [])}))
+        outcome = "first evaluation: %s; after the follow-up of section 14: %s" % (outcome, o2)
+        by = (by + "; " if by else "") + by2
     rows.append((sid, when, "%s, %ss" % (outcome, c.get("wall_s")), title, by))
 
 print("| change | evaluated on | outcome of the registered quick check(s) | what it changes | reported by / reason |")
@@ -46,5 +52,6 @@ for r in rows:
     print("| %s | %s | %s | %s | %s |" % r)
 tot = [r for r in rows if "DETECTED" in r[2] or "missed" in r[2] or "inconclusive" in r[2]]
 print()
-print("valid on HEAD: %d; detected: %d; missed: %d; inconclusive: %d; obsolete / invalid on HEAD: %d" % (
-    len(tot), sum("DETECTED" in r[2] for r in tot), sum("missed" in r[2] for r in tot), sum("inconclusive" in r[2] for r in tot), len(rows) - len(tot)))
+final = lambda r: r[2].split("after the follow-up of section 14:")[-1]
+print("evaluated: %d; reported (exit 1) in the latest evaluation: %d; missed (exit 0): %d; inconclusive (exit 2 or timeout): %d; obsolete / not evaluated: %d" % (
+    len(tot), sum("DETECTED" in final(r) for r in tot), sum("missed" in final(r) for r in tot), sum("inconclusive" in final(r) for r in tot), len(rows) - len(tot)))
